@@ -6,7 +6,7 @@ git checkout -q -- . ; git clean -qfd
 PYTHONPATH=$W/src timeout 300 /venv/bin/python "$O/demo.py" >/dev/null 2>&1; d0=$?
 git apply "$O/patch.diff" || { echo "$C-$X: patch does not apply"; exit 2; }
 PYTHONPATH=$W/src timeout 300 /venv/bin/python "$O/demo.py" >"$O/demo_with_change.log" 2>&1; d1=$?
-PYTHONPATH=$W/src timeout 1500 /venv/bin/python -m pytest -q -p no:cacheprovider --timeout=900 --continue-on-collection-errors -x -q 2>&1 | tail -1 > "$O/pytest.log" 
+
 PYTHONPATH=$W/src timeout 1500 /venv/bin/python -m pytest -q -p no:cacheprovider --timeout=900 --continue-on-collection-errors 2>&1 | tail -1 > "$O/pytest.log"
 git checkout -q -- . ; git clean -qfd
 echo "$C-$X demo_without=$d0 demo_with=$d1 pytest: $(cat $O/pytest.log)"
